@@ -232,6 +232,13 @@ pub fn run_op(fam: &str, name: &str, input: &Value) -> Value {
                 crate::aread::run_script(&frames, input["cut"].as_u64().unwrap() as usize, input["maxlen"].as_u64().unwrap() as u32, &sched)
             }
             #[cfg(feature = "io")]
+            "bread" => {
+                let frames = crate::frames::frames_from_json(&input["frames"]);
+                crate::bio::run_read_script(&frames, input["cut"].as_u64().unwrap() as usize, input["maxlen"].as_u64().unwrap() as u32, &input["sched"])
+            }
+            #[cfg(feature = "io")]
+            "bwrite" => crate::bio::run_write_script(&crate::bio::vals(&input["vals"]), input["maxlen"].as_u64().unwrap() as u32, &input["sched"]),
+            #[cfg(feature = "io")]
             "awrite" => {
                 let vals = crate::awrite::vals_from_json(&input["vals"]);
                 let sched: Vec<crate::awrite::Step> = input["sched"].as_array().unwrap().iter().map(crate::awrite::Step::from_json).collect();
